@@ -125,6 +125,9 @@ type c05Case struct {
 	HTML    bool   `json:"html"`                    // text/html response through the agent configured with the websocket shim
 	Wrapped bool   `json:"wrapped"`                 // through the agent with session tracking and the banner (wrapping response writers); request is a page navigation
 	PaceMs  int    `json:"pace_ms"`                 // > 0: free-running producer, one chunk every PaceMs without waiting for the observer
+	Status  int    `json:"status,omitempty"`        // response status (0: 200)
+	Group   string `json:"group,omitempty"`         // concurrent-streams group: after its first chunk every stream of the group waits until all GroupN streams have had theirs observed
+	GroupN  int    `json:"group_size,omitempty"`
 	Class   string `json:"class"`
 }
 
@@ -160,6 +163,7 @@ func C05(r *core.Run) {
 	scripts := map[string]c05Case{}
 	outcomes := map[string]*c05Outcome{}
 	bound := map[string]time.Duration{}
+	groupSeen := map[string]int{}
 	var pxFor func(c c05Case) *fakes.Proxy
 	getInner := func(id string) *c05Inner {
 		mu.Lock()
@@ -194,7 +198,11 @@ func C05(r *core.Run) {
 		in := getInner(id)
 		out := &c05Outcome{c: c, missedAt: -1}
 		var w rawhttp.Builder
-		w.Line("HTTP/1.1 200 OK")
+		if c.Status == 0 || c.Status == 200 {
+			w.Line("HTTP/1.1 200 OK")
+		} else {
+			w.Line(fmt.Sprintf("HTTP/1.1 %d Status %d", c.Status, c.Status))
+		}
 		switch {
 		case c.HTML:
 			w.Field("Content-Type", "text/html; charset=utf-8")
@@ -295,6 +303,20 @@ func C05(r *core.Run) {
 				break
 			}
 			out.latencies = append(out.latencies, time.Since(t0))
+			if i == 0 && c.GroupN > 0 {
+				// all streams of the group are open at once: none continues before every one had its first chunk observed
+				mu.Lock()
+				groupSeen[c.Group]++
+				mu.Unlock()
+				for d := time.Now().Add(T); time.Now().Before(d); time.Sleep(time.Millisecond) {
+					mu.Lock()
+					all := groupSeen[c.Group] >= c.GroupN
+					mu.Unlock()
+					if all {
+						break
+					}
+				}
+			}
 			if c.PauseMs > 0 {
 				time.Sleep(time.Duration(c.PauseMs) * time.Millisecond)
 			}
@@ -428,6 +450,7 @@ func C05(r *core.Run) {
 		if i%5 == 4 {
 			c.Wrapped = true
 		}
+		c.Status = []int{200, 200, 200, 201, 206, 404, 500, 502, 503}[rng.Intn(9)]
 		if i == 2 || i == 7 || (!r.Quick() && i%40 == 2) {
 			// a long free-running stream of small chunks (~6.5 s): coalescing that waits for a pause shows up here
 			c.CL, c.HTML, c.SSE = false, false, i == 7
@@ -438,7 +461,7 @@ func C05(r *core.Run) {
 			}
 			cnt, maxSz = len(c.Chunks), 8
 		}
-		c.Class = fmt.Sprintf("n=%d|max=%s|mix=%v|pause=%d|sse=%v|cl=%v|shim-html=%v|wrapped=%v|pace=%d", cnt, sizeClass(maxSz), szClass >= len(sizes), c.PauseMs, c.SSE, c.CL, c.HTML, c.Wrapped, c.PaceMs)
+		c.Class = fmt.Sprintf("n=%d|max=%s|mix=%v|pause=%d|sse=%v|cl=%v|shim-html=%v|wrapped=%v|pace=%d|status=%d", cnt, sizeClass(maxSz), szClass >= len(sizes), c.PauseMs, c.SSE, c.CL, c.HTML, c.Wrapped, c.PaceMs, c.Status)
 		cases = append(cases, c)
 	}
 	run := func(cs []c05Case, T time.Duration, par int) {
@@ -544,6 +567,57 @@ func C05(r *core.Run) {
 		}
 		if len(c.Chunks) > 1 && len(c.Chunks) < 10 {
 			r.Sample(map[string]interface{}{"case": c, "chunk_latencies_us": durUs(out.latencies)})
+		}
+	}
+	// concurrent streams: N responses open at once, each in lock-step, none continuing before all had their first chunk observed
+	groupSizes := []int{24}
+	if !r.Quick() {
+		groupSizes = []int{24, 40, 100}
+	}
+	for gi, gn := range groupSizes {
+		mk := func(tag string) []c05Case {
+			var cs []c05Case
+			for k := 0; k < gn; k++ {
+				cs = append(cs, c05Case{ID: fmt.Sprintf("s%dg%d%sk%d", r.Seed, gi, tag, k), Chunks: []int{100, 1, 4097}, Group: fmt.Sprintf("g%d%s", gi, tag), GroupN: gn,
+					SSE: k%2 == 0, Class: fmt.Sprintf("concurrent-streams=%d", gn)})
+			}
+			return cs
+		}
+		missed := func(cs []c05Case) (int, *c05Outcome) {
+			n := 0
+			var first *c05Outcome
+			for _, c := range cs {
+				mu.Lock()
+				out := outcomes[c.ID]
+				mu.Unlock()
+				if out == nil || out.missedAt >= 0 || !out.completed {
+					n++
+					if first == nil && out != nil {
+						first = out
+					}
+				} else {
+					lat = append(lat, out.latencies...)
+				}
+			}
+			return n, first
+		}
+		cs := mk("a")
+		run(cs, 5*time.Second, gn)
+		r.Cases(cs[0].Class, gn)
+		if n, _ := missed(cs); n > 0 {
+			// confirm with the whole group again (the streams only interfere with each other) and a doubled bound
+			cs2 := mk("b")
+			run(cs2, 10*time.Second, gn)
+			if n2, first := missed(cs2); n2 > 0 {
+				obs := int64(-1)
+				at := -1
+				if first != nil {
+					obs, at = first.observed, first.missedAt
+				}
+				r.Violate("C05:chunk-not-relayed:concurrent-streams", fmt.Sprintf("%d of %d concurrently open responses made no progress within 10s (and %d within 5s in the first run): e.g. chunk %d flushed by the backend, proxy had observed %d body bytes", n2, gn, n, at, obs), cs2[0], nil)
+			} else {
+				r.Inconclusive(fmt.Sprintf("%d of %d concurrent streams missed the 5s bound once, none on the re-run", n, gn))
+			}
 		}
 	}
 	sort.Slice(lat, func(i, j int) bool { return lat[i] < lat[j] })
